@@ -89,6 +89,7 @@ type c05Gen struct {
 	sdepth  int      // statement depth left at the statement being generated (bounds blocks nested inside expressions)
 	nhtml   int      // nested-render helper calls used as expression operands so far
 	cfTop   []string // contentFor names defined unconditionally at the top of the program
+	side    *Rng     // a second stream, for additions that must not shift the choices drawn from r
 }
 
 type c05Fn struct {
@@ -411,11 +412,37 @@ func (g *c05Gen) stmt(d int) *c05N {
 			}
 			call.parts = append(call.parts, g.expr("any", 2, "arg-userfn"))
 		}
+		// every other call or so hands the function more arguments than it has parameters: nothing needs their value
+		for k, na := g.surplus(), np; k > 0; k, na = k-1, na+1 {
+			if na > 0 {
+				call.parts = append(call.parts, ", ")
+			}
+			call.parts = append(call.parts, g.sideExpr("any", 2, "arg-userfn-surplus"))
+		}
 		call.parts = append(call.parts, ")")
 		return &c05N{parts: []interface{}{"<% let " + name + " = fn(" + strings.Join(ps, ", ") + ") { ", body, " } %>", "<%= ", call, " %>"}}
 	default:
 		return &c05N{parts: []interface{}{"<% return ", g.expr("any", 2, "return-value"), " %>"}}
 	}
+}
+
+// surplus: how many arguments beyond the parameter list the call being generated gets (0: none). Like sideExpr it draws
+// from the side stream only: the programs of a seed are the ones they were before, plus these arguments.
+func (g *c05Gen) surplus() int {
+	if g.side == nil || !g.side.Chance(45) {
+		return 0
+	}
+	return g.side.Range(1, 2)
+}
+
+// sideExpr: an expression generated from the side stream, without nested-render helper calls (those draw names and
+// budgets the main stream goes on to use)
+func (g *c05Gen) sideExpr(kind string, d int, role string) *c05N {
+	or, od, oh := g.r, g.sdepth, g.nhtml
+	g.r, g.sdepth = g.side, 0
+	n := g.expr(kind, d, role)
+	g.r, g.sdepth, g.nhtml = or, od, oh
+	return n
 }
 
 // htmlOK: may another nested-render helper call be used as an operand here? (bounded per program, and needs statement depth left)
@@ -529,7 +556,7 @@ func (g *c05Gen) html(role string) *c05N {
 }
 
 func c05Program(r *Rng) *c05N {
-	g := &c05Gen{r: r}
+	g := &c05Gen{r: r, side: &Rng{s: r.s ^ 0xC05C05C05C05C05}}
 	root := &c05N{ctx: "top"}
 	if r.Chance(12) {
 		// PartialHelper JS-escapes the rendered partial when the content type says javascript and the name has another extension
